@@ -730,6 +730,24 @@ func (g *Gen) evalCall(n *Node, env *Env) (Term, error) {
 			return Term{}, err
 		}
 		rng := fmt.Sprintf("(and (<= %s %s) (< %s %s))", lo.S, q, q, hi.S)
+		if name == "forall" && strings.HasPrefix(hi.S, "(+ ") && strings.HasSuffix(hi.S, " 1)") && !strings.Contains(hi.S, "q!") {
+			// forall over [lo, E+1): split off the last instance P[E] as a ground conjunct (equivalent; spares the
+			// solver from guessing the witness at loop-preservation obligations)
+			last := strings.TrimSuffix(strings.TrimPrefix(hi.S, "(+ "), " 1)")
+			if !strings.ContainsAny(last, "()") || strings.Count(last, "(") == strings.Count(last, ")") {
+				e3 := env.clone()
+				e3.names[args[0].Val] = Term{S: last, Sort: "Int", T: types.Typ[types.Int]}
+				if pl, err := g.evalBool(args[3], e3); err == nil {
+					rng2 := fmt.Sprintf("(and (<= %s %s) (< %s %s))", lo.S, q, q, last)
+					body := fmt.Sprintf("(=> %s %s)", rng2, p)
+					fa := fmt.Sprintf("(forall ((%s Int)) %s)", q, body)
+					if pats := triggersFor(body, q); pats != "" {
+						fa = fmt.Sprintf("(forall ((%s Int)) (! %s %s))", q, body, pats)
+					}
+					return Term{S: fmt.Sprintf("(and %s (=> (<= %s %s) %s))", fa, lo.S, last, pl), Sort: "Bool"}, nil
+				}
+			}
+		}
 		if name == "forall" {
 			body := fmt.Sprintf("(=> %s %s)", rng, p)
 			if pats := triggersFor(body, q); pats != "" {
@@ -987,6 +1005,22 @@ func (g *Gen) evalCall(n *Node, env *Env) (Term, error) {
 		}
 		return g.eval(m.Body, e2)
 	}
+	if f, ok := g.P.cs.Fns[name]; ok && f.Body != nil && !f.Rec && nodeHasQuant(f.Body) && !g.specMode {
+		// spec functions with quantified bodies are expanded in place, so that goal skolemisation and trigger
+		// selection see the quantifier (the solvers handle `(not (forall ..))` behind a define-fun poorly)
+		if len(f.Params) != len(args) {
+			return Term{}, fmt.Errorf("fn %s: %d args expected", name, len(f.Params))
+		}
+		e2 := &Env{names: map[string]Term{}, st: env.st, old: env.old, noLocals: true, pkg: env.pkg, calleeMode: true}
+		for i, pr := range f.Params {
+			x, err := arg(i)
+			if err != nil {
+				return Term{}, err
+			}
+			e2.names[pr.Name] = x
+		}
+		return g.eval(f.Body, e2)
+	}
 	if f, ok := g.P.cs.Fns[name]; ok {
 		g.usedFns[name] = true
 		var as []string
@@ -1152,4 +1186,22 @@ func triggersFor(body, q string) string {
 func isUnbound(err error) bool {
 	m := err.Error()
 	return strings.Contains(m, "unbound name") || strings.Contains(m, "no call to")
+}
+
+func nodeHasQuant(n *Node) bool {
+	if n == nil {
+		return false
+	}
+	if n.Kind == "call" {
+		switch n.Val {
+		case "forall", "exists", "forallS", "forallI", "forallB", "existsS", "existsI":
+			return true
+		}
+	}
+	for _, a := range n.Args {
+		if nodeHasQuant(a) {
+			return true
+		}
+	}
+	return false
 }
